@@ -11,6 +11,16 @@ from typing import List, Tuple, Union
 from .line_writer import LineWriter
 
 
+def escape_docstring_text(text: str) -> str:
+    """
+    Escape text that is placed inside a triple-double-quoted docstring of generated code.
+
+    Backslashes are doubled and triple quotes are escaped, so the text can neither end the docstring nor form
+    an escape sequence; a NUL character (not allowed in Python source) becomes a space.
+    """
+    return text.replace("\0", " ").replace("\\", "\\\\").replace('"""', '\\"\\"\\"')
+
+
 class DocumentationBlock:
     """
     Data container for docstring content.
@@ -218,5 +228,6 @@ class DocumentationWriter:
             lines.append("")
             lines.append("Raises:")
             lines.extend(self.section_renderer.render_raises(doc.raises, indent + 4))
+        lines[1:] = [escape_docstring_text(line) for line in lines[1:]]
         lines.append('"""')
         return "\n".join(lines)
